@@ -297,10 +297,15 @@ CATALOGUE = [
          note="full-range slice returns the receiver itself"),
     # ------------------------------------------------------------------ C10
     dict(id="m10_enum_cache_by_value", prop="C10", file="ak/ppobj.py",
-         edits=[("        # (1, 1.0 and True are the same dictionary key but are printed\n        # differently: the type is a part of the key)\n        key = (type(value), value)\n",
-                 "        key = value\n"),
-                ("        # ('by_fmt_cache' is part of self._cache)\n        key = (type(value), value)\n", "        # ('by_fmt_cache' is part of self._cache)\n        key = value\n")],
+         edits=[("        # the value are parts of the key)\n        key = (type(value), value, str(value))\n",
+                 "        # the value are parts of the key)\n        key = value\n"),
+                ("        # ('by_fmt_cache' is part of self._cache)\n        key = (type(value), value, str(value))\n", "        # ('by_fmt_cache' is part of self._cache)\n        key = value\n")],
          note="the original defect (fixed in /repo): cell texts cached by the value alone - 2 and 2.0 share an entry"),
+    dict(id="m10_enum_cache_without_text", prop="C10", file="ak/ppobj.py",
+         edits=[("        # the value are parts of the key)\n        key = (type(value), value, str(value))\n",
+                 "        # the value are parts of the key)\n        key = (type(value), value)\n"),
+                ("        # ('by_fmt_cache' is part of self._cache)\n        key = (type(value), value, str(value))\n", "        # ('by_fmt_cache' is part of self._cache)\n        key = (type(value), value)\n")],
+         note="the original defect (fixed in /repo): 0.0 and -0.0 share one entry of the enum cell caches"),
     dict(id="m10_enum_id_cache", prop="C10", file="ak/ppobj.py",
          edits=[("        self._cache = weakref.WeakKeyDictionary()\n", "        self._cache = {}\n"),
                 ("        cache_key = field_palette  # need to maintain separate caches\n",
